@@ -151,3 +151,111 @@ Fixpoint gossip_run (disable : bool) (st : nstate) (ms : list gmsg) : nstate * l
 End P2P.
 
 Definition ninit : nstate := {| n_gs := None; n_tbl := [] |}.
+
+(* ================================================================== extension X5: the receive / dispatch loop of p2p.Run
+   `for { envelope := sub.Next; proto.Unmarshal(envelope.Data, &msg) (error: continue); if envelope.GetFrom() == h.ID() { continue };
+          switch msg.Message.(type) { heartbeat | observation | signed VAA | observation request | default } }`
+   statement by statement.  harness/p2p_run executes this loop for real (p2p.go of the working tree with only the transport
+   changed) and [p2p_dispatch] is re-evaluated on every history it records.  The own-peer-id test and the verification flag
+   handed to the heartbeat verifier come from gen/ExtractedP2P.v (extractor p2p_loop). *)
+
+(* envelope.Data after proto.Unmarshal into gossipv1.GossipMessage.  O / V: what the loop hands on without looking at it
+   (pointers to gossipv1.SignedObservation, gossipv1.SignedVAAWithQuorum) *)
+Inductive gossip_msg (O V : Type) :=
+| MInvalid                                   (* proto.Unmarshal returned an error *)
+| MHeartbeat (eaddr hb sig : bytes)          (* GossipMessage_SignedHeartbeat: GuardianAddr, Heartbeat, Signature *)
+| MObservation (o : O)                       (* GossipMessage_SignedObservation *)
+| MSignedVaa (v : V)                         (* GossipMessage_SignedVaaWithQuorum *)
+| MObsReq (eaddr req sig : bytes)            (* GossipMessage_SignedObservationRequest *)
+| MUnknown.                                  (* no / an unknown oneof member: `default:` *)
+Arguments MInvalid {O V}.
+Arguments MHeartbeat {O V}.
+Arguments MObservation {O V}.
+Arguments MSignedVaa {O V}.
+Arguments MObsReq {O V}.
+Arguments MUnknown {O V}.
+
+Inductive chan_out (O V : Type) :=
+| OutObs (o : O)                             (* obsvC <- m.SignedObservation : to the processor *)
+| OutVaa (v : V)                             (* signedInC <- m.SignedVaaWithQuorum : to the processor *)
+| OutReq (r : bytes).                        (* obsvReqC <- r : to the chain watchers *)
+Arguments OutObs {O V}.
+Arguments OutVaa {O V}.
+Arguments OutReq {O V}.
+
+(* what the node's other goroutines do to the same state / channels, interleaved with the loop in any order *)
+Inductive levent (O V : Type) :=
+| LRecv (from : peerid) (m : gossip_msg O V) (* one iteration of the receive loop; from = envelope.GetFrom() *)
+| LSetGS (ks : list gaddr)                   (* gst.Set by the guardian-set watcher *)
+| LLocalReq (r : bytes)                      (* obsvReqSendC goroutine: `obsvReqC <- msg` for a locally originated request *)
+| LCleanup (now : Z)                         (* gst.Cleanup ticker *)
+| LOwn (a : gaddr) (p : peerid) (v : hbv).   (* own heartbeat goroutine: gst.SetHeartbeat(ourAddr, h.ID(), heartbeat) *)
+Arguments LRecv {O V}.
+Arguments LSetGS {O V}.
+Arguments LLocalReq {O V}.
+Arguments LCleanup {O V}.
+Arguments LOwn {O V}.
+
+Section P2PLoop.
+Variable recover : bytes -> bytes -> option bytes.
+Variable keccak : bytes -> bytes.
+Variable decode_hb : bytes -> option Z.
+Variable decode_req : bytes -> bool.
+Context {O V : Type}.
+
+(* one iteration of the loop body after sub.Next.  disable = Run's disableHeartbeatVerify parameter, self = h.ID(),
+   t = gst's heartbeat table, gs = gst.Get() (None = nil) *)
+Definition p2p_dispatch (disable : bool) (self : peerid) (t : table) (gs : option (list gaddr)) (from : peerid) (m : gossip_msg O V)
+  : table * list (chan_out O V) :=
+  match m with
+  | MInvalid => (t, [])                                                       (* err != nil: continue *)
+  | _ =>
+    if p2p_loop_loopback_guard && bytes_eqb from self then (t, []) else       (* envelope.GetFrom() == h.ID(): continue *)
+    match m with
+    | MInvalid => (t, [])
+    | MHeartbeat eaddr hb sig =>
+      match gs with
+      | None => (t, [])                                                       (* gs == nil: break *)
+      | Some g => (fst (process_heartbeat recover keccak decode_hb g t from eaddr hb sig (p2p_loop_hb_disable disable)), [])
+      end
+    | MObservation o => (t, [OutObs o])
+    | MSignedVaa v => (t, [OutVaa v])
+    | MObsReq eaddr req sig =>
+      match gs with
+      | None => (t, [])                                                       (* gs == nil: break *)
+      | Some g => match process_obsreq recover keccak decode_req g eaddr req sig with
+                  | ROk r => (t, [OutReq r])                                  (* err == nil: obsvReqC <- r *)
+                  | RErr _ => (t, [])
+                  end
+      end
+    | MUnknown => (t, [])
+    end
+  end.
+
+Definition loop_step (disable : bool) (self : peerid) (st : nstate) (e : levent O V) : nstate * list (chan_out O V) :=
+  match e with
+  | LRecv from m => let '(t', outs) := p2p_dispatch disable self (n_tbl st) (n_gs st) from m in (with_tbl st t', outs)
+  | LSetGS ks => ({| n_gs := Some ks; n_tbl := n_tbl st |}, [])
+  | LLocalReq r => (st, [OutReq r])
+  | LCleanup now => (with_tbl st (cleanup now (n_tbl st)), [])
+  | LOwn a p v => match set_heartbeat (n_tbl st) a p v with Some t' => (with_tbl st t', []) | None => (st, []) end
+  end.
+
+Fixpoint loop_run (disable : bool) (self : peerid) (st : nstate) (es : list (levent O V)) : nstate * list (list (chan_out O V)) :=
+  match es with
+  | [] => (st, [])
+  | e :: t => let '(st1, o1) := loop_step disable self st e in let '(st2, os) := loop_run disable self st1 t in (st2, o1 :: os)
+  end.
+
+(* the part of a loop event that the earlier model (gossip_step) sees *)
+Definition embed (self : peerid) (e : levent O V) : list gmsg :=
+  match e with
+  | LRecv from (MHeartbeat eaddr hb sig) => if p2p_loop_loopback_guard && bytes_eqb from self then [] else [GHeartbeat from eaddr hb sig]
+  | LRecv from (MObsReq eaddr req sig) => if p2p_loop_loopback_guard && bytes_eqb from self then [] else [GObsReq eaddr req sig]
+  | LRecv _ _ => []
+  | LSetGS ks => [GSetGS ks]
+  | LLocalReq _ => []
+  | LCleanup now => [GCleanup now]
+  | LOwn a p v => [GOwn a p v]
+  end.
+End P2PLoop.
